@@ -413,10 +413,18 @@ def run_cases(ck, lines, tag, per_case_timeout=10.0):
         resource.setrlimit(resource.RLIMIT_AS, (6 << 30, 6 << 30))
         resource.setrlimit(resource.RLIMIT_CORE, (0, 0))
 
+    # once enough cases have been CONFIRMED as not returning control (each costs a watchdog period), the rest of the run adds
+    # nothing: the shards stop and the cases not run are reported as such (an implementation that hangs on a common construct
+    # would otherwise keep the check busy for an hour before it can print its VIOLATION lines)
+    import threading
+    stop = threading.Event()
+    confirmed = [0]
+    lock = threading.Lock()
+
     def run_shard(sid, idxs):
         pos = 0
         attempt = 0
-        while pos < len(idxs):
+        while pos < len(idxs) and not stop.is_set():
             attempt += 1
             outp = os.path.join(base, "out_%d_%d" % (sid, attempt))
             work = os.path.join(base, "work_%d" % sid)
@@ -455,11 +463,18 @@ def run_cases(ck, lines, tag, per_case_timeout=10.0):
                     results[culprit] = "HANG"
             else:
                 results[culprit] = "ABORT rc=%s" % rc
+            if (results[culprit] or "").split(" ")[0] in ("HANG", "ABORT"):
+                with lock:
+                    confirmed[0] += 1
+                    if confirmed[0] >= 12:
+                        stop.set()
             pos += 1
     from concurrent.futures import ThreadPoolExecutor
     with ThreadPoolExecutor(max_workers=n) as ex:
         list(ex.map(lambda a: run_shard(*a), enumerate(shards)))
     shutil.rmtree(base, ignore_errors=True)
+    if stop.is_set():
+        results = [r if r is not None else "NOTRUN" for r in results]
     return results
 
 
